@@ -266,3 +266,17 @@ M('c15-factory-none-branch-noop', 'C15', 'R6', HELP,
             else:
                 self._headers[normalized_name] = transform(value)
 """)
+
+M('c15-expires-astimezone-unconditional', 'C15', 'R4', 'falcon/response.py',
+  """            if expires.tzinfo is None:
+                # naive
+                self._cookies[name]['expires'] = expires.strftime(fmt)
+            else:
+                # aware
+                gmt_expires = expires.astimezone(timezone.utc)
+                self._cookies[name]['expires'] = gmt_expires.strftime(fmt)
+""", """            gmt_expires = expires.astimezone(timezone.utc)
+            self._cookies[name]['expires'] = gmt_expires.strftime(fmt)
+""")
+M('c15-secure-filename-word-class', 'C15', 'R10', 'falcon/util/misc.py',
+  "_UNSAFE_CHARS = re.compile(r'[^a-zA-Z0-9.-]')", "_UNSAFE_CHARS = re.compile(r'[^\\w.-]')")
